@@ -74,7 +74,14 @@ def sym(e):
     """symbol identity: (full rendering, typed name or None)"""
     e = strip_r(e)
     if e[0] == "let":
-        return (e[1], typed_name(e[2]))
+        t = typed_name(e[2])
+        if t is None:
+            # a variable bound to a pure expression also answers to that expression (`let push_sat = x.push_msat / 1000`
+            # and the inline `x.push_msat / 1000` are one quantity): "=<rendering of the value>"
+            inner = peel(e[2])
+            if inner[0] in ("/", "%", "*", "sat-", "min", "max", "len"):
+                t = "=" + render(inner)
+        return (e[1], t)
     e = peel(e)
     return (render(e), typed_name(e))
 
@@ -129,6 +136,12 @@ def negate(atom):
         return ("notvariant", atom[1], atom[2])
     if k == "notvariant":
         return ("variant", atom[1], atom[2])
+    if k == "and":
+        return ("or", tuple(negate(x) for x in atom[1]))
+    if k == "or":
+        return ("and", tuple(negate(x) for x in atom[1]))
+    if k == "const":
+        return ("const", not atom[1])
     return ("not", atom)
 
 
@@ -149,9 +162,44 @@ def bool_atom(e, polarity=True):
         return ("const", bool(e[1]) == polarity)
     if e[0] == "k" and e[1] in ("true", "false"):
         return ("const", (e[1] == "true") == polarity)
-    if e[0] == "k" and e[1] in ("true", "false"):
-        return ("const", (e[1] == "true") == polarity)
+    pv = presence_atom(e)
+    if pv is None:
+        pv = range_atom(e)
+    if pv is not None:
+        return pv if polarity else negate(pv)
     return ("bool", sym(e), polarity)
+
+
+# Option / Result presence tests have one canonical atom whatever the spelling (`x.is_none()`, `!x.is_some()`,
+# `matches!(x, None)`, `if let Some(..) = x`): ("variant", x, 0) for None / Ok and ("notvariant", x, 0) for Some / Err
+PRESENCE = {"Option::<T>::is_none": "variant", "Option::<T>::is_some": "notvariant",
+            "Result::<T, E>::is_ok": "variant", "Result::<T, E>::is_err": "notvariant"}
+
+
+def range_atom(e):
+    """(a..b).contains(&x) / (a..=b).contains(&x) as the conjunction a <= x, x < b (x <= b)"""
+    if e[0] != "call" or len(e[2]) != 2 or not e[1].endswith("::contains") or "ops::Range" not in e[1]:
+        return None
+    rg, x = strip_r(e[2][0]), strip_r(e[2][1])
+    lo = hi = None
+    incl = False
+    if rg[0] == "adt" and rg[1].endswith("ops::Range"):
+        f = dict(rg[3])
+        lo, hi = f.get("start"), f.get("end")
+    elif rg[0] == "call" and rg[1].endswith("RangeInclusive::<Idx>::new") and len(rg[2]) == 2:
+        lo, hi = rg[2]
+        incl = True
+    if lo is None or hi is None:
+        return None
+    return ("and", (cmp_atom(">=", x, lo), cmp_atom("<=" if incl else "<", x, hi)))
+
+
+def presence_atom(e):
+    if e[0] == "call" and len(e[2]) == 1:
+        for suf, kind in PRESENCE.items():
+            if e[1].endswith(suf):
+                return (kind, sym(strip_r(e[2][0])), 0)
+    return None
 
 
 def _symmatch(a, b):
@@ -165,6 +213,8 @@ def _symmatch(a, b):
         return True
     if ta is not None and ta == tb:
         return True
+    if (ta is not None and ta.startswith("=") and ta[1:] == rb) or (tb is not None and tb.startswith("=") and tb[1:] == ra):
+        return True
     # spec symbols have typed == "spec": match on rendering suffix or typed name
     if ta == "spec":
         return _spec_match(ra, b)
@@ -176,6 +226,8 @@ def _symmatch(a, b):
 def _spec_match(spec, symb):
     r, t = symb
     if spec == r or spec == t:
+        return True
+    if t is not None and t.startswith("=") and t[1:] == spec:
         return True
     if r.endswith("." + spec) or r.endswith("::" + spec):
         return True
@@ -262,6 +314,14 @@ def decide(atom, assumptions):
     """True / False / None for a branch atom under a conjunction of assumed atoms"""
     if atom[0] == "const":
         return atom[1]
+    if atom[0] in ("and", "or"):
+        rs = [decide(x, assumptions) for x in atom[1]]
+        strong, weak = (True, False) if atom[0] == "and" else (False, True)
+        if all(r is strong for r in rs):
+            return strong
+        if any(r is weak for r in rs):
+            return weak
+        return None
     n = negate(atom)
     for a in assumptions:
         if entails(a, atom):
@@ -269,7 +329,7 @@ def decide(atom, assumptions):
         if entails(a, n):
             return False
     # two-atom transitivity for difference constraints: a1: x - y + c1 <= 0, a2: y - z + c2 <= 0
-    if atom[0] == "le" or (n[0] == "le"):
+    if atom[0] in ("le", "eq", "ne"):
         les = [a for a in assumptions if a[0] in ("le", "eq")]
         for i, a1 in enumerate(les):
             for a2 in les:
@@ -351,6 +411,10 @@ def parse_atom(text):
     if not m:
         neg = text.startswith("!")
         name = text.lstrip("!").strip().strip("`")
+        mp = re.match(r"^(?:[\w:]*::)?((?:Option::<T>|Result::<T, E>)::is_\w+)\((.*)\)$", name)
+        if mp and mp.group(1) in PRESENCE:
+            a = (PRESENCE[mp.group(1)], (mp.group(2).strip(), "spec"), 0)
+            return negate(a) if neg else a
         return ("bool", (name, "spec"), not neg)
     l, op, r = m.group(1), m.group(2), m.group(3)
     return cmp_atom(op, _parse_sum(l), _parse_sum(r))
@@ -420,15 +484,56 @@ def edge_atoms(fv, bi):
         else:
             out.append((t.otherwise, None))
         return out
+    if e[0] == "discr" and strip_r(e[1])[0] == "call" and strip_r(e[1])[1].rsplit("::", 1)[-1] == "cmp" \
+       and "cmp::" in strip_r(e[1])[1] and len(strip_r(e[1])[2]) == 2 and "Ordering" in e[2]:
+        # match a.cmp(b) { Less => .., Equal => .., Greater => .. }
+        l, r = strip_r(e[1])[2]
+        ops = {-1: "<", 255: "<", 0: "==", 1: ">"}
+        listed = []
+        for v, tg in t.arms:
+            v = v - (1 << 64) if v >= (1 << 63) else (v - 256 if 127 < v < 256 else v)
+            if v in ops:
+                listed.append(ops[v])
+                out.append((tg, cmp_atom(ops[v], l, r)))
+            else:
+                out.append((tg, None))
+        rest = [o for o in ("<", "==", ">") if o not in listed]
+        oth = t.otherwise
+        if oth is not None and b.term(oth).kind != "unreachable":
+            out.append((oth, cmp_atom(rest[0], l, r) if len(rest) == 1 else
+                        (cmp_atom({"<": ">=", ">": "<=", "==": "!="}[listed[0]], l, r) if len(listed) == 1 else None)))
+        return out
     if e[0] == "discr":
+        # the matched value is a known constructor on every live path (e.g. the result of an inlined helper whose
+        # success paths were cut): only the arm of that constructor can be taken
+        inner = strip_r(e[1])
+        good = None
+        if inner[0] == "wrap":
+            good = True
+        elif inner[0] == "adt" and inner[2] in ("Err", "None", "Break"):
+            good = False
+        elif inner[0] == "call" and inner[1].endswith("::from_residual") and "FromResidual" in inner[1]:
+            good = False        # `return Err(e.into())` produced by `?`
+        if good is not None and any(e[2].startswith(p_) for p_ in ("std::ops::ControlFlow<", "std::result::Result<", "std::option::Option<")):
+            good_idx = 1 if e[2].startswith("std::option::Option<") else 0
+            taken = good_idx if good else 1 - good_idx
+            for v, tg in t.arms:
+                out.append((tg, ("const", v == taken)))
+            if t.otherwise is not None and b.term(t.otherwise).kind != "unreachable":
+                out.append((t.otherwise, ("const", taken not in [v for v, _ in t.arms])))
+            return out
         s = sym(e[1])
         vals = [v for v, _ in t.arms]
+        two = e[2].startswith("std::option::Option<") or e[2].startswith("std::result::Result<")
         for v, tg in t.arms:
-            out.append((tg, ("variant", s, v)))
+            out.append((tg, ("notvariant", s, 0) if two and v == 1 else ("variant", s, v)))
         oth = t.otherwise
         if b.term(oth).kind != "unreachable":
             # `if let Variant(..) = x {..} else {..}`: the else edge means "not that variant"
-            out.append((oth, ("notvariant", s, vals[0]) if len(vals) == 1 else None))
+            if two and len(vals) == 1 and vals[0] == 1:
+                out.append((oth, ("variant", s, 0)))
+            else:
+                out.append((oth, ("notvariant", s, vals[0]) if len(vals) == 1 else None))
         return out
     # integer switch (match on number): equality atoms
     for v, tg in t.arms:
@@ -521,7 +626,82 @@ def scenario_cut(fv, assumptions):
         cut |= new
         live = fv.reach(0, cut_edges=cut)
         view = fv.restricted(live)
+    cut |= _path_fact_cut(fv, view, assumptions, cut)
     return cut
+
+
+def _atom_syms(a):
+    if a is None:
+        return []
+    if a[0] in ("le", "eq", "ne"):
+        return [s_ for s_, _ in a[1]]
+    if a[0] in ("bool", "variant", "notvariant"):
+        return [a[1]]
+    if a[0] in ("and", "or"):
+        return [y for x in a[1] for y in _atom_syms(x)]
+    return []
+
+
+MAX_FACT_STATES = 24
+
+
+def _path_fact_cut(fv, view, assumptions, cut):
+    """one more refinement: a guard spelled as several tests (`a.is_empty() && b.is_empty()` for `len(a) + len(b) == 0`)
+    is decided only when the outcome of the earlier test is remembered along the path.  Forward propagation of the
+    facts established by branches whose condition speaks about a quantity of the scenario; an edge is cut when it is
+    contradicted in every state that reaches it.  Facts about a user variable are dropped where it is reassigned."""
+    asyms = [y for a in assumptions for y in _atom_syms(a)]
+    if not asyms:
+        return set()
+    b = fv.b
+    rel = {}        # (block, target) -> atom, for switch edges that speak about the scenario's quantities
+    for bi in range(fv.n):
+        if b.cleanup[bi] or b.term(bi).kind != "switch":
+            continue
+        for tg, atom in edge_atoms(view, bi):
+            if atom is None or atom[0] == "const" or (bi, tg) in cut:
+                continue
+            if any(_symmatch(x, y) for x in _atom_syms(atom) for y in asyms):
+                if decide(atom, assumptions) is None:
+                    rel[(bi, tg)] = atom
+    if len(rel) < 2:
+        return set()
+    names_defined = {}
+    for l in range(len(b.local_tys)):
+        n = b.local_name(l)
+        if n:
+            for d in fv.defs.get(l, []):
+                names_defined.setdefault(d[0], set()).add(n)
+    feasible = set()
+    seen = {}
+    work = [(0, frozenset())]
+    overflow = False
+    while work:
+        blk, facts = work.pop()
+        st = seen.setdefault(blk, set())
+        if facts in st:
+            continue
+        if len(st) >= MAX_FACT_STATES:
+            overflow = True
+            break
+        st.add(facts)
+        kill = names_defined.get(blk, ())
+        if kill:
+            facts = frozenset(f for f in facts if not any(s_[0] in kill for s_ in _atom_syms(f)))
+        for v in fv.succ[blk]:
+            if (blk, v) in cut or (blk, v) in fv.removed:
+                continue
+            atom = rel.get((blk, v))
+            nf = facts
+            if atom is not None:
+                if decide(atom, list(assumptions) + list(facts)) is False:
+                    continue
+                nf = facts | {atom}
+            feasible.add((blk, v))
+            work.append((v, nf))
+    if overflow:
+        return set()
+    return {e for e in rel if e not in feasible and e[0] in seen}
 
 
 def conditions_on_path_to(fv, sink_block):
